@@ -1,4 +1,5 @@
 import DmlcModel.Wrap.Base
+import DmlcModel.Wrap.Name
 import Driver.Proto
 /-! line-protocol driver of the `Wrap` model (protocol: see harness/h_wrappers.cc).  The abstract base
 split of `DmlcModel.Wrap` is instantiated with the chunk sequence of the `Split` model. -/
@@ -70,7 +71,7 @@ def fsPut (fs : List (String × Option Bytes)) (name : String) (v : Option Bytes
 /-- the name the MODEL gives the cache file (`URISpec`, generated suffix) -/
 def modelCacheName (sp : Spec) (base : String) : String :=
   match sp.kind with
-  | .createdC => base ++ Gen.Wrap.cacheSuffix sp.k sp.n
+  | .createdC => String.ofList (cacheName base.toList sp.k sp.n)
   | _ => base
 
 /-- the documented name (what the harness opens) -/
@@ -181,6 +182,10 @@ def step0 (d : DSt) : List String → DSt × String
         construct (endObj d) { kind := if name = "-" then .createdT else .createdC, isText := fmt = "text", k := k, n := n,
                                w := defw, cname := if name = "-" then "" else name, defw := defw }
     | _, _, _ => (d, "bad-op")
+  | ["cname", k, n] =>
+    match k.toNat?, n.toNat? with
+    | some k, some n => (d, "cname " ++ String.ofList (cacheName "cb".toList k n))
+    | _, _ => (d, "bad-op")
   | ["reopen"] =>
     match d.spec with
     | none => (d, "no-object")
@@ -221,6 +226,11 @@ def step0 (d : DSt) : List String → DSt × String
     match drainGo sp (mode = "rec") 100001 d [] with
     | .error e => fail d e
     | .ok (bs, d') => (d', "blobs" ++ String.join (bs.map fun b => " " ++ hexOrDash b) ++ " end")
+  | ["hint", m] =>
+    -- HintChunkSize only sizes cells the wrapper allocates later; `Chunk::Load` resizes every cell anyway
+    match m.toNat? with
+    | some _ => withObj d fun _ => (d, "ok")
+    | none => (d, "bad-op")
   | ["bf"] => withObj d fun sp =>
     match d.obj with
     | .thr s =>
